@@ -34,6 +34,7 @@ RULE = ("base queries: SQLAlchemy select / legacy Query - unfiltered, pre-filter
         "before import, after import} x 12 function names in fresh processes. distinct = "
         "distinct (base, filter, instance); non-trivial = base returns rows and the filter "
         "keeps some and drops some of them")
+RULE += (" " + 'Also: bases rooted at aliased() entities (6 kinds); Post.home NOT NULL, dangling keys (SQLAlchemy), relationship name shared by two entities, Profile one-to-one.')
 ASSUMPTIONS = ["LIMIT/OFFSET bases are excluded (SQLAlchemy's generative where and Django's "
                "'cannot filter once sliced' define those, not this library)",
                "reference evaluation over the object graph (vpmon/gen/relational.py)"]
